@@ -685,6 +685,11 @@ class TermEval:
             if isinstance(a, int) and isinstance(b, int) and b != 0 and isinstance(node.op, (ast.Mod, ast.FloorDiv)):
                 return a % b if isinstance(node.op, ast.Mod) else a // b
             raise NC
+        if isinstance(node, ast.Compare) and len(node.ops) == 1 and isinstance(node.ops[0], (ast.Is, ast.IsNot)) and isinstance(node.comparators[0], ast.Constant) and node.comparators[0].value is None and isinstance(node.left, ast.Name) and node.left.id in env:
+            # `x is None` for a name bound to a term value (a symbol, an expression): decided - it is not None
+            v = env[node.left.id]
+            if isinstance(v, (RF, Tup, Mat, PW, Rel, DictV)) or (isinstance(v, Opaque) and v.key is not None and v.key != ("const", None)):
+                return isinstance(node.ops[0], ast.IsNot)
         if isinstance(node, ast.Compare) and len(node.ops) == 1:
             a, b = self.const(node.left, env, fn, depth), self.const(node.comparators[0], env, fn, depth)
             op = node.ops[0]
